@@ -82,6 +82,18 @@ type Slicer struct {
 	Through func(c *ssa.Call) []int
 	// Arith: follow both operands of arithmetic BinOps instead of stopping at them.
 	Arith bool
+	// Root: the function whose body (with its private helpers) the rule is about;
+	// parameters of those helpers are followed to the arguments of their call sites.
+	Root *ssa.Function
+
+	entered map[*ssa.Function]bool
+}
+
+func (s *Slicer) enter(f *ssa.Function) {
+	if s.entered == nil {
+		s.entered = map[*ssa.Function]bool{}
+	}
+	s.entered[f] = true
 }
 
 // Leaves returns the origins of v.
@@ -242,6 +254,21 @@ func (s *Slicer) walk(v ssa.Value, via []string, depth int, seen map[string]bool
 			}
 		case *ssa.TypeAssert:
 			s.walk(t.X, via, depth, seen, out, n+1)
+		case *ssa.Call:
+			if cal := t.Call.StaticCallee(); cal != nil && privateCallSite(cal) == ssa.CallInstruction(t) {
+				nRet := 0
+				s.enter(cal)
+				Instrs(cal, func(in ssa.Instruction) {
+					if r, ok := in.(*ssa.Return); ok && x.Index < len(r.Results) && in.Block() != cal.Recover {
+						nRet++
+						s.walk(r.Results[x.Index], via, depth, seen, out, n+1)
+					}
+				})
+				if nRet > 0 {
+					return
+				}
+			}
+			s.walk(x.Tuple, prepend(via, fmt.Sprintf("#%d", x.Index)), depth, seen, out, n+1)
 		default:
 			s.walk(x.Tuple, prepend(via, fmt.Sprintf("#%d", x.Index)), depth, seen, out, n+1)
 		}
@@ -268,8 +295,39 @@ func (s *Slicer) walk(v ssa.Value, via []string, depth int, seen map[string]bool
 				return
 			}
 		}
+		// a private helper of the enclosing function: its results are what it returns
+		if cal := x.Call.StaticCallee(); cal != nil && privateCallSite(cal) == ssa.CallInstruction(x) && cal.Signature.Results().Len() == 1 {
+			nRet := 0
+			s.enter(cal)
+			Instrs(cal, func(in ssa.Instruction) {
+				if r, ok := in.(*ssa.Return); ok && len(r.Results) == 1 && in.Block() != cal.Recover {
+					nRet++
+					s.walk(r.Results[0], via, depth, seen, out, n+1)
+				}
+			})
+			if nRet > 0 {
+				return
+			}
+		}
 		leaf("call")
 	case *ssa.Parameter:
+		// the parameter of a private helper is the argument of its call site — when the
+		// slice entered the helper through that call, or when the helper belongs to the
+		// body of the rule's root function (Root)
+		if cs := privateCallSite(x.Parent()); cs != nil && (s.StopParam == nil || !s.StopParam(x)) {
+			up := s.entered[x.Parent()]
+			if !up && s.Root != nil && x.Parent() != s.Root && inSet(Reach(s.Root), x.Parent()) {
+				up = true
+			}
+			if up {
+				for i, p := range x.Parent().Params {
+					if p == x && i < len(cs.Common().Args) {
+						s.walk(cs.Common().Args[i], via, depth, seen, out, n+1)
+						return
+					}
+				}
+			}
+		}
 		if depth > 0 && (s.StopParam == nil || !s.StopParam(x)) {
 			fn := x.Parent()
 			idx := -1
@@ -407,7 +465,7 @@ func (s *Slicer) walkFreeVar(fv *ssa.FreeVar, via []string, depth int, seen map[
 // localMap: when m is a map created in the same function (MakeMap), the keys/values
 // read from it are those inserted by MapUpdate instructions on it.
 func (s *Slicer) localMap(m ssa.Value, what string, via []string, depth int, seen map[string]bool, out *[]Leaf, n int) bool {
-	mm, ok := Strip(m).(*ssa.MakeMap)
+	mm, ok := Resolve(m).(*ssa.MakeMap) // also a map built and returned by a private helper
 	if !ok {
 		return false
 	}
